@@ -162,13 +162,18 @@ Definition pack (f : flags) (st : N -> N) (cap : N) (s : pool) : list tx :=
   | l => if p018 f then pack_sorted st cap (sort f l) else firstn (N.to_nat cap) l
   end.
 
+(* simpleContainer.remove(hs) as called by the background expiry (growRing): pending entries only *)
+Definition expire (s : pool) (hs : list N) : pool :=
+  mkPool (filter (fun t => negb (memN (thash t) hs)) (received s)) (executed s) (evicted s).
+
 (* ---------- operation sequences (sequential semantics: every pool method is atomic) ---------- *)
 Inductive op :=
 | OAdd (t : tx)
 | OMark (txs : list tx) (ev : list N)
 | OUnmark (txs : list tx) (ev : list N)
 | OPack            (* read-only *)
-| OLookup (h : N). (* read-only *)
+| OLookup (h : N)  (* read-only *)
+| OExpire (hs : list N). (* growRing dropped the pending entries with these hashes (any set: over-approximation) *)
 
 Definition step (lim : N) (s : pool) (o : op) : pool :=
   match o with
@@ -177,6 +182,7 @@ Definition step (lim : N) (s : pool) (o : op) : pool :=
   | OUnmark txs ev => unmark lim s txs ev
   | OPack => s
   | OLookup _ => s
+  | OExpire hs => expire s hs
   end.
 
 Definition run (lim : N) (s : pool) (ops : list op) : pool := fold_left (step lim) ops s.
@@ -223,3 +229,102 @@ Fixpoint collapse (sched : list fop) : option (list op) :=
   | FOp o :: r => option_map (cons o) (collapse r)
   | _ => None
   end.
+
+(* ---------- the pool-level lock (TxPool.lock, commit "fix: TxPool serialises ...") ---------- *)
+(* AddTransaction, MarkExecuted, UnMarkExecuted hold pool.lock for their whole body; PackForCast,
+   GetTransaction, IsExisted and the background expiry (simpleContainer.growRing) do not take it.
+   Fine-grained steps of thread [tid] (a step that needs the lock while another thread holds it, or that
+   continues a method the thread is not in, leaves the state unchanged -- the thread waits -- so every
+   list of steps is a schedule):
+     LCheck tid t        : Lock ; isTransactionExisted(t.Hash)
+     LPush tid           : received.push(t) if "not existed" ; Unlock
+     LMarkW tid txs ev   : Lock ; executed records of txs written ; ev cached as evicted
+     LMarkR tid          : received.remove(hashes txs ++ ev) ; Unlock
+     LUnmarkB tid txs ev : Lock ; ev dropped from the evicted cache ; first transaction deleted from
+                           executed and re-added (nothing at all for an empty block)
+     LUnmarkN tid        : next transaction deleted from executed and re-added ; Unlock after the last
+     LOp o               : a whole AddTransaction / MarkExecuted / UnMarkExecuted in one step (needs the
+                           lock), or a read / an expiry tick (never blocked). *)
+Inductive task :=
+| KAdd (t : tx) (b : bool)
+| KMark (txs : list tx) (ev : list N)
+| KUnmark (rest : list tx).
+
+Inductive lop :=
+| LCheck (tid : N) (t : tx)
+| LPush (tid : N)
+| LMarkW (tid : N) (txs : list tx) (ev : list N)
+| LMarkR (tid : N)
+| LUnmarkB (tid : N) (txs : list tx) (ev : list N)
+| LUnmarkN (tid : N)
+| LOp (o : op).
+
+Record lstate := mkL { lpool : pool; holder : option (N * task) }.
+
+Definition needs_lock (o : op) : bool :=
+  match o with OAdd _ | OMark _ _ | OUnmark _ _ => true | OPack | OLookup _ | OExpire _ => false end.
+
+(* the two halves of MarkExecuted *)
+Definition mark_write (s : pool) (txs : list tx) (ev : list N) : pool :=
+  mkPool (received s) (fold_left put_exec txs (executed s)) (ev ++ evicted s).
+Definition mark_remove (s : pool) (txs : list tx) (ev : list N) : pool :=
+  mkPool (filter (fun t => negb (memN (thash t) (hashes txs ++ ev))) (received s)) (executed s) (evicted s).
+
+Definition release_if_done (tid : N) (rest : list tx) : option (N * task) :=
+  match rest with [] => None | _ => Some (tid, KUnmark rest) end.
+
+Definition lstep (lim : N) (s : lstate) (o : lop) : lstate :=
+  match o, holder s with
+  | LCheck tid t, None => mkL (lpool s) (Some (tid, KAdd t (existed (lpool s) (thash t))))
+  | LPush tid, Some (tid', KAdd t b) =>
+    if tid =? tid' then mkL (if b then lpool s else push lim (lpool s) t) None else s
+  | LMarkW tid txs ev, None => mkL (mark_write (lpool s) txs ev) (Some (tid, KMark txs ev))
+  | LMarkR tid, Some (tid', KMark txs ev) =>
+    if tid =? tid' then mkL (mark_remove (lpool s) txs ev) None else s
+  | LUnmarkB tid (t :: rest) ev, None => mkL (unmark lim (lpool s) [t] ev) (release_if_done tid rest)
+  | LUnmarkN tid, Some (tid', KUnmark (t :: rest)) =>
+    if tid =? tid' then mkL (unmark lim (lpool s) [t] []) (release_if_done tid rest) else s
+  | LOp o, None => mkL (step lim (lpool s) o) None
+  | LOp o, Some h => if needs_lock o then s else mkL (step lim (lpool s) o) (Some h)
+  | _, _ => s
+  end.
+
+Definition lrun (lim : N) (s : lstate) (sched : list lop) : lstate := fold_left (lstep lim) sched s.
+Definition linit : lstate := mkL empty None.
+
+(* no MarkExecuted is between its record-write and its remove *)
+Definition mark_idle (s : lstate) : Prop :=
+  match holder s with Some (_, KMark _ _) => False | _ => True end.
+
+(* the same steps WITHOUT the lock discipline (the code before the fix) are [fstep] above. *)
+
+(* ---------- background expiry, exactly: simpleContainer.txAnnualRingMap / growRing ---------- *)
+(* Every pending entry carries a ring counter: push stores 0, remove deletes it, each growRing tick
+   (one per minute) increments all counters and removes the entries whose counter reached expiredRing. *)
+Definition expired_ring : N := 5.
+
+Record tpool := mkT { tp : pool; rings : list (N * N) }.
+
+(* after a pool method: entries that stayed pending keep their counter, new ones start at 0 *)
+Definition resync (rg : list (N * N)) (s : pool) : list (N * N) :=
+  map (fun t => (thash t, match nm_get rg (thash t) with Some r => r | None => 0 end)) (received s).
+
+Inductive top := TOp (o : op) | TTick.
+
+Definition tick_expired (rg : list (N * N)) : list N :=
+  map fst (filter (fun kv => expired_ring <=? snd kv + 1) rg).
+
+Definition tstep (lim : N) (s : tpool) (o : top) : tpool :=
+  match o with
+  | TOp o => let p := step lim (tp s) o in mkT p (resync (rings s) p)
+  | TTick =>
+    let hs := tick_expired (rings s) in
+    let p := expire (tp s) hs in
+    mkT p (resync (map (fun kv => (fst kv, snd kv + 1)) (rings s)) p)
+  end.
+
+Definition trun (lim : N) (s : tpool) (ops : list top) : tpool := fold_left (tstep lim) ops s.
+
+(* the untimed operation a timed step amounts to *)
+Definition erase1 (s : tpool) (o : top) : op :=
+  match o with TOp o => o | TTick => OExpire (tick_expired (rings s)) end.
